@@ -193,9 +193,13 @@ def ref_round(v):
 # generator of fit specifications
 # ---------------------------------------------------------------------------------------
 class Gen:
-    def __init__(self, rng, clean=True, max_depth=2):
+    ALL = ("arith", "item_number", "fixed_model", "log_gaussian", "drawer")
+
+    def __init__(self, rng, clean=True, max_depth=2, allow=None):
         self.rng = rng
-        self.clean = clean          # no feature with a recorded finding (arith, list-built, fixed model, LogGaussian, Drawer)
+        # `allow`: features with a recorded finding that the composition may use (none when clean)
+        self.allow = set(allow) if allow is not None else (set() if clean else set(self.ALL))
+        self.clean = not self.allow
         self.max_depth = max_depth
         self.pool = []
         self.nvars = 0
@@ -221,7 +225,7 @@ class Gen:
 
     def prior_spec(self):
         rng = self.rng
-        fams = ["Uniform"] * 9 + ["Gaussian"] * 6 + ["LogUniform"] * 3 + ([] if self.clean else ["LogGaussian"] * 2)
+        fams = ["Uniform"] * 9 + ["Gaussian"] * 6 + ["LogUniform"] * 3 + (["LogGaussian"] * 3 if "log_gaussian" in self.allow else [])
         fam = rng.choice(fams)
         if fam in ("Uniform",):
             lo = self.value()
@@ -283,7 +287,7 @@ class Gen:
 
     def scalar(self):
         r = self.rng.random()
-        if not self.clean and r < 0.18:
+        if "arith" in self.allow and r < 0.18:
             return self.arith()
         if r < 0.4:
             return self.const()
@@ -327,7 +331,7 @@ class Gen:
                 elif r < 0.7:
                     pcls = rng.choice(["Plain", "PlainEx"])
                     attrs.append([arg, {"t": "inst", "cls": pcls, "attrs": [["p", self.const()], ["q", self.const()]]}])
-                elif r < 0.8 and not self.clean:
+                elif r < 0.8 and "fixed_model" in self.allow:
                     attrs.append([arg, self.model(depth + 1, True)])
                 elif r < 0.9:
                     attrs.append([arg, {"t": "none"}])
@@ -338,7 +342,7 @@ class Gen:
 
     def coll(self, depth=0):
         rng = self.rng
-        forms = ["dict", "kwargs", "dict"] + ([] if self.clean else ["list", "append", "mixed", "list"])
+        forms = ["dict", "kwargs", "dict"] + (["list", "append", "mixed", "list"] if "item_number" in self.allow else [])
         form = rng.choice(forms)
         n = rng.randint(1, 4 if depth == 0 else 2)
         keys = rng.sample(["galaxy", "lens", "source", "g0", "g1", "mass", "light", "a", "b", "gaussian_0"], n)
@@ -347,7 +351,7 @@ class Gen:
             r = rng.random()
             if r < 0.7 or depth >= self.max_depth:
                 v = self.model(depth + 1)
-            elif r < 0.8 and not self.clean:
+            elif r < 0.8 and "fixed_model" in self.allow:
                 v = self.model(depth + 1, True)
             elif r < 0.9:
                 v = self.coll(depth + 1)
@@ -366,9 +370,7 @@ class Gen:
     def search(self):
         rng = self.rng
         names = ["Emcee", "DynestyStatic", "DynestyDynamic", "PySwarmsGlobal", "PySwarmsLocal", "BFGS", "LBFGS"]
-        if not self.clean:
-            names = names + ["Drawer"]
-        cls = rng.choice(names)
+        cls = "Drawer" if "drawer" in self.allow and rng.random() < 0.6 else rng.choice(names)
         st = {}
         for f, kind in SEARCH_FIELDS[cls]:
             st[f] = self.setting(kind)
@@ -1022,7 +1024,9 @@ def gen_cases(ctx):
     cases = []
     fits = 0
     for k in range(nbase):
-        gen = Gen(rng, clean=(k % 5 != 0 and k % 5 != 3), max_depth=2 if k % 3 else 3)
+        # 3 of 8 base specifications are free of every feature with a recorded finding, 4 use exactly one, 1 any
+        allow = [[], ["arith"], [], ["item_number"], [], ["fixed_model"], ["log_gaussian", "drawer"][(k // 8) % 2:][:1], list(Gen.ALL)][k % 8]
+        gen = Gen(rng, allow=allow, max_depth=2 if k % 3 else 3)
         S = gen.fit()
         cases.append({"kind": "fit", "spec": S})
         cases += equal_pairs(rng, S, quick)
